@@ -6,6 +6,41 @@ PROPS = ['C%02d' % i for i in range(1, 21)]
 BASELINE = "cd /repo && /venv/bin/python -m pytest -ra -q -p no:cacheprovider --timeout=900 --continue-on-collection-errors"
 
 CLAIMED = {
+ 'C06': dict(
+    category='proof',
+    text="Rocq theorems about the DependencyTracker model for EVERY history of add_unmet/meet/generator steps (C06_tracker_history_wf), "
+         "exact multiset accounting of registrations (add = +1, each yield consumes exactly one registration under the head met dependency, "
+         "a complete drain releases exactly the registrations under met dependencies and leaves none: C06_drain_complete), and for every run "
+         "of the solver model each input is asked at most once and nothing is asked after a refusal (C06_prompts_bounded). "
+         "Tie: tracker histories (random + all short ones) and solver traces executed on model and real code. Termination and the "
+         "per-line evaluation bound are decided by the monitor on the real solver under an attempt budget (attempts <= "
+         "schedulings*(1+distinct waits)+spec loads), not yet by a theorem - stated as partial.",
+    design_ref='DESIGN.md §4 C06',
+    note="Trusted as for C01. The evaluation bound/termination are observed, not proved (partial); wall-clock and recursion depth are runtime.",
+    technique='Rocq refinement proof of the tracker (Permutation accounting) + invariant on the prompt transcript; correspondence; budgeted monitor',
+ ),
+ 'C13': dict(
+    category='proof',
+    text="Rocq theorems C13_prompts_demand_exact (every prompt in every finished or aborted run: the input is absent from the supplied "
+         "inputs, at least one line is quoted, every quoted line consults that input on the final stores; no input asked twice; nothing "
+         "after a refusal) and C13_rerun_does_not_reask (a re-run on the written-back store never asks again for an answer it holds). "
+         "Tie: solver traces incl. the needed_by lists compared model vs code; monitor re-evaluates quoted lines at prompt time and "
+         "replays solve -> write back -> solve (no prompt, identical result, unread inputs droppable) on generated and real forms.",
+    design_ref='DESIGN.md §4 C13',
+    note="Trusted as for C01; 'identical solution on re-run' is decided by the monitor until the schedule-independence theorem (C05) lands.",
+    technique='Rocq inductive invariant over the prompt transcript + differential correspondence + write-back replays',
+ ),
+ 'C20': dict(
+    category='proof',
+    text="Rocq theorems C20_session_keeps_answers (whatever way solve ends - finished, refused prompt, or an exception leaving solve() - "
+         "the input store afterwards contains every value it held before and every answer given, and nothing else) and "
+         "C20_rerun_does_not_reask. Proved for finished AND aborted runs via an induction that also covers the error exits. "
+         "The CLI glue (try/finally write-back, Ctrl-C -> refused) is exercised on the real entry point with scripted stdin: Ctrl-C / EOF "
+         "at prompt k (all k thorough), aborting sessions; file must parse, keep old values and answers, and the re-run must not re-ask.",
+    design_ref='DESIGN.md §4 C20',
+    note="Partial by nature: open(...,'w') truncation during a kill, or a second Ctrl-C inside the finally, are runtime behaviours outside any Gallina model; configparser formatting trusted.",
+    technique='Rocq invariant incl. error exits + real-CLI interruption replays',
+ ),
  'C04': dict(
     category='proof',
     text="Rocq theorems C04_solution_is_demand_closure / C04_partial_solution_within_closure: for every catalogue (with form-qualified "
